@@ -11,7 +11,6 @@
 
 import io
 import os
-import textwrap
 import typing
 
 from .nodes import Node
@@ -186,6 +185,69 @@ def __write_smtlib_pretty_str(expr: Node):
     return f.getvalue()
 
 
+def __wrap_smtlib_str(text: str, width: int = 78, indent: str = '  '):
+    """Wrap the given (single-line) rendering of an expression into lines of
+    at most ``width`` characters, if possible.
+
+    In contrast to ``textwrap.wrap`` lines are only broken at spaces between
+    tokens: tokens are never split, white space within string literals and
+    quoted symbols is left alone and comments stay on lines of their own.
+    """
+    chunks = []  # pairs (text without breakable space, is end of line)
+    cur = []
+    pos = 0
+    size = len(text)
+    while pos < size:
+        char = text[pos]
+        if char in ('"', '|'):
+            # string literal / quoted symbol, "" is an escaped quote
+            end = pos + 1
+            while end < size:
+                if text[end] == char:
+                    if char == '"' and text[end + 1:end + 2] == '"':
+                        end += 1
+                    else:
+                        break
+                end += 1
+            cur.append(text[pos:end + 1])
+            pos = end + 1
+        elif char == ';':
+            # comment, extends to the end of the line
+            end = text.find('\n', pos)
+            end = size if end < 0 else end
+            cur.append(text[pos:end])
+            pos = end
+        elif char in (' ', '\n'):
+            if cur:
+                chunks.append((''.join(cur), char == '\n'))
+                cur = []
+            elif char == '\n' and chunks:
+                chunks[-1] = (chunks[-1][0], True)
+            pos += 1
+        else:
+            cur.append(char)
+            pos += 1
+    if cur:
+        chunks.append((''.join(cur), False))
+
+    lines = []
+    line = ''
+    for chunk, eol in chunks:
+        if not line:
+            line = f'{indent}{chunk}' if lines else chunk
+        elif len(line) + 1 + len(chunk) <= width:
+            line = f'{line} {chunk}'
+        else:
+            lines.append(line)
+            line = f'{indent}{chunk}'
+        if eol:
+            lines.append(line)
+            line = ''
+    if line:
+        lines.append(line)
+    return lines
+
+
 def write_smtlib(file: typing.TextIO, exprs: typing.List[Node]):
     """Write the given expressions to the given file object
     Honor options to wrap lines or pretty-print."""
@@ -199,9 +261,7 @@ def write_smtlib(file: typing.TextIO, exprs: typing.List[Node]):
         lines = [__write_smtlib_str(expr) for expr in exprs]
         if options.args().wrap_lines:
             # wrap every line
-            lines = map(
-                lambda line: textwrap.wrap(
-                    line, width=78, subsequent_indent='  '), lines)
+            lines = map(__wrap_smtlib_str, lines)
             # and flatten the list
             lines = [sub for line in lines for sub in line]
         for line in lines:
